@@ -35,6 +35,8 @@ func init() {
 			{ID: "R04f", Floor: 3, Doc: "lookups answer only for a confirmed candidate and report not-found otherwise (= R07a)", Run: ruleR07a},
 			{ID: "R04e", Floor: 3, Doc: "oversize CID: ShouldPut's non-false answers behind cidLen <= max; put paths write only behind err==nil && should", Run: ruleR04e},
 			{ID: "R04k", Floor: 1, Doc: "a resumed store knows every block of the file: the rescan indexes each section it passes (= R12c)", Run: ruleR12c},
+			{ID: "R04l", Floor: 2, Doc: "the defaults ApplyOptions fills in are the documented constants and nothing else: MaxIndexCidSize becomes DefaultMaxIndexCidSize (2 KiB) and IndexCodec the multihash-sorted codec, whatever the other options say", Run: ruleR04l},
+			{ID: "R04m", Floor: 1, Doc: "the read-write store lists its keys from its index, never by scanning the payload through the embedded read-only store: its backing is not bounded at the end of the payload, so after FinalizeReadOnly a scan runs into the index bytes and lists a key that was never put", Run: ruleR04m},
 		},
 	})
 }
@@ -987,4 +989,66 @@ func ruleR04j(c *Ctx, r *Report) {
 	sort.Strings(bad)
 	r.Check(len(bad) == 0, "options-assigned-only-by-options@repository", "-", fmt.Sprintf("%d assignments to Options fields, all in option constructors or ApplyOptions", n),
 		strings.Join(bad, "; ")+": the value the caller configured is silently replaced for part of the API (two readers of one archive then disagree)")
+}
+
+func ruleR04l(c *Ctx, r *Report) {
+	fn, err := c.Func(modV2, "", "ApplyOptions")
+	if err != nil {
+		r.InfraFail("%v", err)
+		return
+	}
+	for _, d := range []struct {
+		field string
+		want  int64
+	}{{"MaxIndexCidSize", 2 << 10}, {"IndexCodec", 0x0401}} {
+		key := "default-value@v2.ApplyOptions#" + d.field
+		n, bad := 0, ""
+		eachInstr(fn, func(in ssa.Instruction) {
+			st, ok := in.(*ssa.Store)
+			if !ok {
+				return
+			}
+			fa, ok := st.Addr.(*ssa.FieldAddr)
+			if !ok || !fieldAddrIs(fa, modV2, "Options", d.field) {
+				return
+			}
+			n++
+			if k, isK := constInt(st.Val); !isK || k != d.want {
+				bad = fmt.Sprintf("Options.%s is set at %s to something other than its documented default (%d)", d.field, c.Pos(st.Pos()), d.want)
+			}
+		})
+		if n == 0 {
+			bad = "no default is filled in for Options." + d.field
+		}
+		r.Check(bad == "", key, c.Pos(fn.Pos()), fmt.Sprintf("only the constant %d is ever filled in", d.want), bad)
+	}
+}
+
+func ruleR04m(c *Ctx, r *Report) {
+	fn, err := c.Func(pkgBS, "ReadWrite", "AllKeysChan")
+	if err != nil {
+		r.InfraFail("%v", err)
+		return
+	}
+	key := "keys-from-index@" + fnKey(fn)
+	bad := ""
+	for _, g := range withAnon(fn) {
+		for _, ci := range callsToFunc(g, pkgBS, "ReadOnly", "AllKeysChan") {
+			bad = fmt.Sprintf("ReadWrite.AllKeysChan hands over to the read-only payload scan at %s", c.Pos(ci.Pos()))
+		}
+	}
+	n := 0
+	for _, g := range withAnon(fn) {
+		eachInstr(g, func(in ssa.Instruction) {
+			if ci, ok := in.(ssa.CallInstruction); ok {
+				if f := calleeFunc(ci.Common()); f != nil && (f.Name() == "ForEachCid" || f.Name() == "ForEach") {
+					n++
+				}
+			}
+		})
+	}
+	if bad == "" && n == 0 {
+		bad = "the keys are not taken from the insertion index (no ForEachCid)"
+	}
+	r.Check(bad == "", key, c.Pos(fn.Pos()), "keys enumerated from the index", bad)
 }
